@@ -273,7 +273,42 @@ def r4(ctx):
     ctx.touch(sw)
     ok = any(t["f"].get("name") == "send" for _, t in sw.calls()) and any(t["f"].get("name") == "call_once" for _, t in sw.calls())
     ctx.check(ok, "C12.R4", sw.path, "send_with-sends-the-built-event", "send_with = if !empty { send(f()) }", sw.sp)
-    ctx.floor("C12.R4", 4)
+    # the gate of the reconciliation path evaluated (K6') on subscriber lists: whenever a live subscriber is registered the
+    # event is built once and handed to send() - a subscriber that went away without unsubscribing must not silence the others
+    from . import feval as E, coll
+    for subs in ([], ["live1"], ["live1", "live2"], ["live1", "closed2"], ["closed1", "live2"], ["closed1", "live2", "closed3"], ["closed1"]):
+        log = []
+        C = coll.Collections(f)
+
+        def oracle(kind, name, payload, site):
+            if kind == "await":
+                return E.UNIT if str(name).startswith("fut:") else None
+            if kind != "call":
+                return None
+            t, args, itp = payload
+            names = [itp.tokname(a).strip("&*") for a in args]
+            if callee_matches(t, r"sync::Subscribers::send$"):
+                log.append(("send", names[1]))
+                return E.Tok("fut:send")
+            if name in ("call_once", "call", "call_mut") and names and names[0] == "build-event":
+                log.append(("build",))
+                return E.Tok("event")
+            if name in ("is_closed",) and names:
+                return E.Int(1 if "closed" in names[0] else 0)
+            if name in ("receiver_count", "sender_count") and names:
+                return E.Int(0 if "closed" in names[0] else 1)
+            return C.handle(kind, name, payload, site)
+        heap = {"self": E.struct(f, "sync::Subscribers", **{"0": coll.seq("vec", [E.Tok(x) for x in subs])})}
+        try:
+            ret, hp, evs = E.run_async(f, "sync::Subscribers::send_with", [E.href("self"), E.Tok("build-event")], heap, oracle)
+            got = E.describe(ret, f)
+        except E.Unsupported as e:
+            got = "UNSUPPORTED-FORM: %s" % e
+        has_live = any(x.startswith("live") for x in subs)
+        okc = got == "()" and ((log == [("build",), ("send", "event")]) if has_live else (log in ([], [("build",), ("send", "event")])))
+        ctx.check(okc, "C12.R4", "sync::Subscribers::send_with", "event-reaches-send-while-a-live-subscriber-exists[%s]" % ",".join(subs),
+                  "subscribers %s: returns %s, effects %s; spec: %s" % (subs, got, log, "the event is built once and handed to send()" if has_live else "nothing needs to be sent"), sw.sp)
+    ctx.floor("C12.R4", 11)
 
 
 def r5(ctx):
